@@ -266,28 +266,29 @@ def _hypothesis_search(mod, tier, seed, shard, nshards, stats, open_known, deadl
 
     def wrapped(case):
         h = case_hash(case)
-        if h in failing:
-            raise Violation(failing[h]["signature"], failing[h]["message"])
-        now = time.time()
-        if state["harness"] is not None:
-            return
-        if state["first_fail_t"] is not None:
-            if now - state["first_fail_t"] > shrink_s:
-                return  # shrink budget used up: no further candidates
-        elif now > deadline:
-            stats.skipped_budget += 1
-            return
-        try:
-            f = run_one(mod, case, stats, open_known, count=state["first_fail_t"] is None)
-        except Exception:  # noqa: BLE001  harness error: stop searching, report exit 2
-            state["harness"] = traceback.format_exc() + "\ncase=" + canon(case)[:3000]
-            return
+        f = failing.get(h)
+        if f is None:
+            now = time.time()
+            if state["harness"] is not None:
+                return
+            if state["first_fail_t"] is not None:
+                if now - state["first_fail_t"] > shrink_s:
+                    return  # shrink budget used up: no further candidates
+            elif now > deadline:
+                stats.skipped_budget += 1
+                return
+            try:
+                f = run_one(mod, case, stats, open_known, count=state["first_fail_t"] is None)
+            except Exception:  # noqa: BLE001  harness error: stop searching, report exit 2
+                state["harness"] = traceback.format_exc() + "\ncase=" + canon(case)[:3000]
+                return
+            if f:
+                failing[h] = f
+                if state["first_fail_t"] is None:
+                    state["first_fail_t"] = time.time()
         if f:
-            failing[h] = f
-            if state["first_fail_t"] is None:
-                state["first_fail_t"] = time.time()
             stats.failure = f  # hypothesis replays the minimal example last
-            raise Violation(f["signature"], f["message"])
+            raise Violation(f["signature"], f["message"])  # single raise site (no Flaky)
 
     test = given(mod.strategy(tier))(wrapped)
     test = settings(
